@@ -29,3 +29,30 @@ package proto
 //@ func toStarlark1
 //@   prop C20
 //@   requires shared_flag: !calleralloc(frozen) || *frozen
+
+// ---- mutators respect freezing and iteration (C20, C04/C06 for proto wrappers): every write into
+// the underlying protoreflect message, list or map happens only while the shared flag of the
+// wrapper group is false (the iteration guard of lists and maps is covered by checkMutable's contract; the conversion between the guard and the write may open and close iterators of its own).
+//@ func RepeatedField.checkMutable
+//@   prop C20
+//@   pure
+//@   ensures result == nil <==> (!*rf.frozen && rf.itercount <= 0)
+//@ func MapField.checkMutable
+//@   prop C20
+//@   pure
+//@   ensures result == nil <==> (!*mf.frozen && mf.itercount <= 0)
+//@ func setFieldStarlark
+//@   prop C20
+//@   assert /return starlark.None, setField\(m.msg, field.Desc, v\)/ frozen_message_is_never_set: !*m.frozen
+//@ func Message.SetField
+//@   prop C20
+//@   assert /return setField\(m.msg, fdesc, v\)/ frozen_message_is_never_set: !*m.frozen
+//@ func repeatedFieldAppend
+//@   prop C20
+//@   assert /rf.list.Append\(po\)/ frozen_list_is_never_written: !*rf.frozen
+//@ func RepeatedField.SetIndex
+//@   prop C20
+//@   assert /rf.list.Set\(i, x\)/ frozen_list_is_never_written: !*rf.frozen
+//@ func MapField.SetKey
+//@   prop C20
+//@   assert /mf.mp.Set\(kx.MapKey\(\), vx\)/ frozen_map_is_never_written: !*mf.frozen
